@@ -59,15 +59,15 @@ CHECKS = {
          "§4.7",
          "Not decided: that all causally consistent schedules give the same result and none deadlocks (the conditions are necessary, not sufficient)."),
  "C08": ("table agreement over the extracted protocol model (constructors, StoreMessage, CanAccept, Update, Start, WaitingFor), role-pruned CFG facts, index-class agreement, loop-exit analysis",
-         "For all 32 message types in six protocols: routing constant = flag demanded by the accepting round, one array by sender index scanned by exactly the accepting round, sent by the round that awaits it; ok[j] is set only after every message required for the party's committee role is present and accepted on its channel kind; secret-bearing payloads are point-to-point to the loop peer with that peer's payload; no constructor argument copies a long-term secret; WaitingFor lists exactly ok[j]==false in storage of its own, Update loops visit every peer, Start resets the flags; each send runs once per recipient.",
+         "For all 32 message types in six protocols: routing constant = flag demanded by the accepting round, one array by sender index scanned by exactly the accepting round, sent by the round that awaits it; ok[j] is set only after every message required for the party's committee role is present and accepted on its channel kind; secret-bearing payloads are point-to-point to the loop peer with that peer's payload; no constructor argument copies a long-term secret; WaitingFor lists exactly ok[j]==false in storage of its own, Update loops visit every peer, Start resets the flags before every send and every successful return; each send runs once per recipient; the routing a message hands to the transport is its own (or a complete copy) and wire wrapper and accessors carry every flag.",
          "§4.8",
          "Not decided: protobuf wire round-trip equality; derived (arithmetic) leakage of secrets."),
  "C09": ("forward lock-state dataflow + lockset walk of the call graph from the concurrent entry points + fork-join (WaitGroup/channel) pairing",
-         "For all interleavings: lock/unlock pair on every path of the engine functions and the recursion runs unlocked; from Start/Update/UpdateFromBytes/WaitingFor of all six parties, round code, the current-round pointer and the party's message store/temp data are only reached with the party mutex held; all 15 goroutines started under update entry points are joined (balanced WaitGroup, one receive per sender, counted receive or select join) before results are read or the spawner returns, write only their own slot or channel, and shared result channels drained after the join have capacity for every sender.",
+         "For all interleavings: lock/unlock pair on every path of the engine functions and the recursion runs unlocked; from Start/Update/UpdateFromBytes/WaitingFor of all six parties, round code, the current-round pointer and the party's message store/temp data are only reached with the party mutex held; all 15 goroutines started under update entry points are joined (balanced WaitGroup, one receive per sender, counted receive or select join) before results are read or the spawner returns, write only their own slot or channel, shared result channels drained after the join have capacity for every sender, every goroutine that signals a pre-armed WaitGroup is started in every counted iteration, and parameterless accessors of key-data/parameter types do not write their receiver.",
          "§4.9",
          "Not decided: result equivalence between concurrent and sequential delivery; races inside dependencies."),
  "C10": ("role-sequence agreement of prover/verifier challenge calls (flattened variadic arguments, API-position statement mapping), codec table extraction (Bytes/FromBytes/constructor/Unmarshal/ValidateBasic), commit/open arity agreement, blinded-scalar and hash-totality rules",
-         "For the nine proof systems the prover and verifier derive the challenge with the same hash (or helper) over role-wise equal ordered inputs and reduce it alike; the five byte codecs and the dln serializer agree position by position and on their part counts (decoder, constant, array type, ValidateBasic); messages write each proof with the encoder whose decoder their Unmarshal uses; commitments agree three ways on their arity; provers multiply points only by blinded scalars (so admissible zero witnesses do not hit the identity-point panic) and the hash functions return nil only for no input.",
+         "For the nine proof systems the prover and verifier derive the challenge with the same hash (or helper) over role-wise equal ordered inputs and reduce it alike; the five byte codecs and the dln serializer agree position by position and on their part counts (decoder, constant, array type, ValidateBasic); messages write each proof with the encoder whose decoder their Unmarshal uses; commitments agree three ways on their arity; provers multiply points only by blinded scalars (so admissible zero witnesses do not hit the identity-point panic) the hash functions return nil only for no input; no function of the proof packages overwrites a big.Int it did not allocate (an accepted proof stays the proof that is serialised); no prover refuses the admissible witness 0.",
          "§4.10",
          "Not decided: algebraic completeness at witness extremes and range slack (numeric); empty encodings of zero components."),
  "C12": ("Fiat-Shamir completeness by data-dependence over go/ssa (commitment classification, hash-input reachability through helpers), tag provenance, session-context index classes",
@@ -79,11 +79,11 @@ CHECKS = {
          "§4.13",
          "Not decided: alpha+beta = a*b mod q (Paillier arithmetic, no wrap-around) — numeric."),
  "C14": ("ordering-set domain guards + symbolic normal forms of key generation and ciphertext + effect analysis",
-         "The seven Paillier domain guards dominate every non-error return with the required reject sets; the randomizer is a per-call unit sample from the rand parameter and the ciphertext has the symbolic form (N+1)^m x^N mod N^2; key generation uses two distinct safe primes of half length, leaves its loop only through the |P-Q| guard and returns N=PQ, phi=(P-1)(Q-1), lambda=phi/gcd; operations never overwrite or return their operands.",
+         "The seven Paillier domain guards dominate every non-error return with the required reject sets; the randomizer is a per-call unit sample from the rand parameter and the ciphertext has the symbolic form (N+1)^m x^N mod N^2; key generation uses two distinct safe primes of half length, leaves its loop only through the |P-Q| guard and returns N=PQ, phi=(P-1)(Q-1), lambda=phi/gcd; operations never overwrite or return their operands; the lower-edge guards of the operations do not reject the admissible values 0 / 1.",
          "§4.14",
          "Not decided: Dec(Enc(m))=m, homomorphic laws, exact bit length of N, primality."),
  "C15": ("for-all loop facts and dominance over go/ssa; term shape of the duplicate-set key",
-         "CheckIndexes judges both the zero test and the duplicate key on id mod q for every id; Create's refusal guards and the nil-error edge of CheckIndexes dominate sampling, every evaluation and every commitment; shares are evaluated at the checked ids with one threshold/polynomial; Verify's arity guard dominates acceptance, its loop runs 1..threshold, the result is Equals(share*G, accumulated point) and a failed addition rejects.",
+         "CheckIndexes judges both the zero test and the duplicate key on id mod q for every id; Create's refusal guards and the nil-error edge of CheckIndexes dominate sampling, every evaluation and every commitment; shares are evaluated at the checked ids with one threshold/polynomial; Verify's arity guard dominates acceptance, its loop runs 1..threshold, the result is Equals(share*G, accumulated point) and a failed addition rejects; ReConstruct collects the x-coordinates from the very list its interpolation ranges over.",
          "§4.15",
          "Not decided: shares lie on one polynomial, subset reconstruction (ReConstruct's algebra), rejection of every altered component."),
  "C16": ("structural matching of the framing loops on go/ssa (append chains, value identity of the length operand), sibling agreement, layout of commit/open, inductive phi invariants for the parser bounds",
